@@ -36,6 +36,39 @@ func nlGen(g *G, tier string) []M {
 			op["alloc"] = true
 		}
 	}
+	// some merges of lists whose (source, type) pairs read the same when written one after the other
+	// without a separator: ("a1", 0) and ("a", 10), ("n1", 1) and ("n", 11) ...
+	for _, op := range ops {
+		switch asStr(op["op"]) {
+		case "intersect", "union", "add":
+		default:
+			continue
+		}
+		if !g2.Chance(0.04) {
+			continue
+		}
+		stem := g2.Pick([]string{"a", "n", "lib-"})
+		ids := []string{stem, stem + "1", "tgt"}
+		mk := func(es []any) M {
+			ns := []any{}
+			for _, id := range ids {
+				ns = append(ns, M{"id": id, "type": 0.0, "a": M{}})
+			}
+			return M{"nodes": ns, "edges": es, "roots": []any{}}
+		}
+		e1 := M{"ty": 0.0, "src": stem + "1", "tos": []any{"tgt"}} // stem+"1"+"0"
+		e2 := M{"ty": 10.0, "src": stem, "tos": []any{stem + "1"}} // stem+"10"
+		switch g2.Int(4) {
+		case 0:
+			op["a"], op["b"] = mk([]any{e1, e2}), mk([]any{e2, e1})
+		case 1:
+			op["a"], op["b"] = mk([]any{e1, e2}), mk([]any{e1})
+		case 2: // the two pairs in different operands
+			op["a"], op["b"] = mk([]any{e1}), mk([]any{e2})
+		default:
+			op["a"], op["b"] = mk([]any{e2}), mk([]any{e1})
+		}
+	}
 	// some merges in which a shared node's two versions differ in nothing but the fraction of a
 	// second of a date: the second operand's value is another value and wins all the same
 	for _, op := range ops {
@@ -102,6 +135,39 @@ func nlGen(g *G, tier string) []M {
 			which = b
 		}
 		which["roots"] = append(asList(which["roots"]), "")
+	}
+	// some matching operations with a probe that has two hash algorithms and a package URL against
+	// nodes that agree on both, on one (lacking the other), or on none; one of them carries the purl
+	for _, op := range ops {
+		if asStr(op["op"]) != "match" || !g2.Chance(0.15) {
+			continue
+		}
+		purl := "pkg:npm/probe@1"
+		node := func(id string, h []any, p string) M {
+			at := M{}
+			if len(h) > 0 {
+				at["Hashes"] = h
+			}
+			if p != "" {
+				at["Identifiers"] = []any{[]any{1.0, p}}
+			}
+			return M{"id": id, "type": 0.0, "a": at}
+		}
+		both := []any{[]any{1.0, "aa"}, []any{3.0, "bb"}}
+		one := []any{[]any{1.0, "aa"}}
+		var nodes []any
+		switch g2.Int(3) {
+		case 0: // two nodes agree on both algorithms, the purl decides
+			nodes = []any{node("n0", both, purl), node("n1", both, ""), node("n2", []any{[]any{1.0, "cc"}}, "")}
+		case 1: // the only candidate lacks one of the probe's algorithms: the common one agrees
+			nodes = []any{node("n0", one, ""), node("n1", []any{[]any{1.0, "zz"}}, "")}
+		default: // one node has both, one only the first: two hash matches, no purl on the probe's side to decide
+			nodes = []any{node("n0", one, ""), node("n1", both, "")}
+			purl = ""
+		}
+		op["a"] = M{"nodes": shuffleAny(g2, nodes), "edges": []any{}, "roots": []any{}}
+		op["n"] = node("probe", both, purl)
+		delete(op, "member")
 	}
 	// a quarter of the matching operations with a probe that is an element of the list itself
 	for _, op := range ops {
